@@ -150,6 +150,12 @@ Definition wf_deps_complete (s : system) (r : result) : bool :=
 Definition wf_deps_sound (s : system) (r : result) : bool :=
   forallb (fun e => nodupb (ae_deps e) && subset (ae_deps e) (required_deps s r e)) (r_eqs r).
 
+(* the ids of the equations whose dependency list is not exactly the required one (for diagnostics and for
+   the matcher of the known finding) *)
+Definition deps_failing (s : system) (r : result) : list nat :=
+  filter_map (fun e => if subset (required_deps s r e) (ae_deps e) && nodupb (ae_deps e) && subset (ae_deps e) (required_deps s r e)
+                       then None else ae_id e) (r_eqs r).
+
 (** W5: the equations solved directly can be ordered so that dependencies come first.  States are inputs of
     the computation, so a dependency on an ODE is no ordering constraint (Generator: generateEquationCode).
     [with_nla = false]: only constraints among direct equations; [true]: NLA equations are nodes as well. *)
